@@ -171,6 +171,9 @@ func (v *SortValue) Less(compareValue *SortValue) ternary.Value {
 			}
 			return ternary.ConvertFromBool(v.Integer < compareValue.Integer)
 		case FloatType:
+			if v.Float == compareValue.Float {
+				return ternary.UNKNOWN
+			}
 			return ternary.ConvertFromBool(v.Float < compareValue.Float)
 		case StringType:
 			return ternary.ConvertFromBool(v.String < compareValue.String)
@@ -230,9 +233,13 @@ func (v *SortValue) EquivalentTo(compareValue *SortValue) bool {
 		switch compareValue.Type {
 		case IntegerType, BooleanType:
 			return v.Integer == compareValue.Integer
+		case FloatType:
+			return v.Float == compareValue.Float
 		}
 	case FloatType:
 		switch compareValue.Type {
+		case IntegerType:
+			return v.Float == compareValue.Float
 		case FloatType:
 			if math.IsNaN(v.Float) && math.IsNaN(compareValue.Float) {
 				return true
